@@ -26,7 +26,7 @@ EXPLANATION = (
     'thread 0 only); plus a frozen set of static-storage variables written after start-up. Every field of the listed classes must '
     'have a row (new fields fail until classified).'
     ' The options hand-over (waitOptionsSet returning) is decided by the completion-flag typestate: optionsSetFinished is set only under the mutex with the pending queue and every swapped-out batch known empty.'
-    ' Added later; (6) unlocked walks of Communicator::children in poll are followed by a lock acquisition; (7) option reads on the go paths follow waitOptionsSet; (8) the start-up seeding of the lazily filled maxSubDTM map covers every pawn split up to colour mirroring, so search threads only look it up.')
+    ' Added later; (6) unlocked walks of Communicator::children in poll are followed by a lock acquisition; (7) option reads on the go paths follow waitOptionsSet; (8) the start-up seeding of the lazily filled maxSubDTM map covers every pawn split up to colour mirroring, so search threads only look it up. (9) every Notifier::wait outside a re-checking loop waits without a time limit (the hand-over edges the table relies on). (10) ~WorkerThread destroys its sub-workers only after its own thread, which polls their communicators unlocked, has been joined - found and fixed defect D20.')
 UNDECIDED = ('absence of races in the C++ memory-model sense for the whole engine (needs dynamic happens-before tracking); rows marked '
              'HB-protocol rely on message-protocol ordering that is listed, not proved; maxSubDTM/maxDTM lazy maps are not judged '
              '(6/7-men tablebase files needed to reach the insertion).')
@@ -180,6 +180,8 @@ def run(fb, rep, tier):
     C10.completion_flag(fb, rep, 'C09.4')
     c5_children_walk(fb, rep)
     c8_lazy_map_seeded(fb, rep)
+    c9_hand_over_waits_are_unbounded(fb, rep)
+    c10_worker_teardown_order(fb, rep)
     # .7 option values (plain bool / int members of the parameter objects) are written by the engine thread and read by the
     # protocol thread when it handles `go`: the only happens-before edge is waitOptionsSet() inside stopThread(), which must
     # therefore precede every option-reading call on the go paths (shared with C06.4)
@@ -735,3 +737,69 @@ def c8_lazy_map_seeded(fb, rep):
     # the per-position entry point may only fall through to the inserting overload for material the seeds cover:
     # the count it is reached with is bounded by the probe's own piece limit, checked where the probes test TBLargest (C13)
     rep.ob(clause, 'K12 finite evaluation', 'initWDLBounds: the seeded non-king count covers the largest supported tablebase (7 men)', n >= 5, where, 'N=%d' % n, f.sname)
+
+
+# ----------------------------------------------------------------------------- .9
+
+def c9_hand_over_waits_are_unbounded(fb, rep, clause='C09.9'):
+    """K2 hand-over edges.  Several rows of the discipline table are justified by "A waits for B's notification before it
+    touches X" (a worker's communicator and child list are built on the worker's own thread; createWorkers() waits for
+    `initialized` before the tree is used).  Notifier::wait(timeout) with a finite timeout returns when the time is up,
+    notified or not, and reports nothing: outside a loop that re-checks a condition such a wait orders nothing.  So every
+    Notifier::wait that is not inside a loop of its function must wait without a time limit (timeout < 0)."""
+    n = 0
+    for f in sorted(fb.funcs.values(), key=lambda x: x.key):
+        if not f.has_cfg or not R.in_prog(f):
+            continue
+        loops = None
+        for b, i, e in f.events():
+            if not (e.get('k') == 'call' and cname(e) == 'Notifier::wait'):
+                continue
+            n += 1
+            if loops is None:
+                loops = f.natural_loops()
+            in_loop = any(b in body for body in loops.values())
+            a = e['args'][0] if e.get('args') else None
+            a0 = a
+            while isinstance(a0, dict) and a0.get('k') in ('cast', 'paren') and 'cv' not in a0:
+                a0 = a0.get('e')
+            unbounded = a is None or (isinstance(a0, dict) and 'cv' in a0 and a0['cv'] < 0)
+            rep.ob(clause, 'K2 hand-over', '%s: a wait for a notification outside a re-checking loop has no time limit' % f.sname, in_loop or unbounded, R.site(f, e),
+                   'inside a loop (timed poll)' if in_loop else ('timeout %s' % (show(a, 40) if a is not None else 'default')), f.sname)
+    rep.floor(clause, 'Notifier::wait call sites', n, 3)
+
+
+# ----------------------------------------------------------------------------- .10
+
+def c10_worker_teardown_order(fb, rep, clause='C09.10'):
+    """K2 a worker's own thread walks the communicators of its sub-workers in Communicator::poll without a lock (C09.6 orders
+    that walk before the *erase* from the list, which takes the mutex - it does not order it before the destruction of the
+    child object, whose vptr is rewritten before ~Communicator reaches removeChild).  The only edge that does is the join of
+    the worker's thread.  So in ~WorkerThread the sub-workers may be destroyed (children.clear() / resize / assignment) only
+    after the decision "join my thread, if I have one" has been passed; members destroyed after the destructor body come
+    later anyway."""
+    f = fb.find1('WorkerThread::~WorkerThread')
+    if rep.need(clause, f, 'WorkerThread::~WorkerThread') is None:
+        return
+    joins = [(b, i, e) for b, i, e in f.events() if e.get('k') == 'call' and cname(e) == 'std::thread::join']
+    rep.floor(clause, 'joins of the worker thread in ~WorkerThread', len(joins), 1)
+    if not joins:
+        return
+    jb = joins[0][0]
+    doms = f.dominators()
+    # the decision block: the nearest dominator of the join block whose condition reads the thread handle, or the join block itself
+    decision = jb
+    for d in doms.get(jb, set()):
+        c = (f.blocks[d].get('term') or {}).get('cond')
+        if d != jb and c is not None and any(isinstance(n, dict) and n.get('k') == 'mem' and ap(n) == 'this.thread' for n in walk(c)) and jb in f.blocks[d]['succ']:
+            decision = d
+    kills = [(b, i, e) for b, i, e in f.events() if e.get('k') == 'call' and e.get('recv') is not None and ap(e['recv']) == 'this.children' and
+             cname(e).split('::')[-1] in ('clear', 'resize', 'erase', 'pop_back', 'operator=', 'swap', 'assign', 'shrink_to_fit')]
+    early = []
+    for b, i, e in kills:
+        after = b != decision and decision in doms.get(b, set()) if decision != jb else (b == jb and i > joins[0][1]) or (b != jb and jb in doms.get(b, set()))
+        # the destruction must not be in the decision block itself before the test, nor anywhere the decision does not dominate
+        if not after:
+            early.append(e)
+    rep.ob(clause, 'K2 hand-over', '~WorkerThread destroys its sub-workers only after its own thread has been joined (or found absent)', not early,
+           R.site(f, early[0]) if early else f.where, '%d explicit destruction(s) of the sub-workers, %d before the join decision' % (len(kills), len(early)), f.sname)
